@@ -24,6 +24,7 @@ Ints == {<<"int", i>> : i \in -Bd..(Bd - 1)}
 Lists(n) == {<<"list", <<>>>>} \cup {<<"list", <<i>>>> : i \in -n..(n - 1)}
             \cup {<<"list", <<i, j>>>> : i \in -n..(n - 1), j \in -n..(n - 1)}
             \cup (IF n >= 3 THEN {<<"list", <<2, 0, 1>>>>, <<"list", <<-1, 1, -1>>>>} ELSE {})
+            \cup {<<"list", <<n>>>>, <<"list", <<-n - 1>>>>, <<"list", <<0, n>>>>}            \* an entry that does not exist: refused
 Masks(n) == {<<"mask", m>> : m \in [1..n -> {0, 1}]}
 RowSels(n) == Ints \cup Slices \cup Lists(n) \cup Masks(n) \cup {<<"all">>}
 ColSels == {<<"none">>, <<"all">>} \cup Ints \cup Slices
